@@ -67,7 +67,13 @@ def multitarget_rule(build_inputs, buildfile, targets, deps=None,
     if len(targets) > 1:
         first = targets[0]
         primary = _get_path(first).addext('.stamp')
-        buildfile.rule(target=targets, deps=[primary])
+        # Give this rule a recipe so that make re-checks the outputs'
+        # timestamps after the stamp is rebuilt; without one, steps consuming
+        # these outputs aren't rebuilt until the *next* invocation of make.
+        # Touching the (existing) outputs also makes them newer than the stamp
+        # again, so that they're up to date afterwards.
+        buildfile.rule(target=targets, deps=[primary],
+                       recipe=[Silent(['touch', '-c', qvar('@')])])
         recipe = listify(recipe) + [Silent([ 'touch', qvar('@') ])]
         if clean_stamp:
             build_inputs.add_target(file_types.File(primary))
